@@ -1,8 +1,16 @@
 """Per-property claims rendered into MANIFEST.json by tools/mkmanifest.py."""
 HOOK_COMMITS = []   # no source hooks needed so far
-FIX_COMMITS = ["81e31d8 fix: implicit default block with its defaults (C17)", "5bfc12a fix: order_config word boundary (C08)", "943f14e fix: patch sort key (C08)", "1bcbbe1 fix: rewrite logic sends the new line ... (C01)", "28efb2a fix: file mode builds the patch from the complete diff (C16)", "c62ee59 fix: pool parent loop leaves only when the done queue is drained (C12)"]
+FIX_COMMITS = ["4756b94 fix: huawei multi_all unchanged lines (C11)", "81e31d8 fix: implicit default block with its defaults (C17)", "5bfc12a fix: order_config word boundary (C08)", "943f14e fix: patch sort key (C08)", "1bcbbe1 fix: rewrite logic sends the new line ... (C01)", "28efb2a fix: file mode builds the patch from the complete diff (C16)", "c62ee59 fix: pool parent loop leaves only when the done queue is drained (C12)"]
 PENDING = {}
 CLAIMS = {
+    "C11": {
+        "technique": "TLA+ VLAN-set device semantics and range expansion (Vlan.tla) + A-layer of huawei _process_vlandb; TLC exhaustive MC over all line-split configuration pairs; real patches of every VLAN-list rule family judged by a TLC trace judge",
+        "text": "TLC checks the transcription of huawei _process_vlandb on all 1M pairs of configurations of a 5-VLAN universe split over <=3 lines (exact final set, no common VLAN dropped; the pre-repair "
+                "shortcut is kept as an instance that must fail). For 9 rule families of the shipped huawei/cisco/nexus rulebooks (trunk allow-pass, hybrid tagged/untagged, vlan batch, swtrunk catalyst/nexus, "
+                "vlan group, vlan) pairs of subsets with adjacent ids, split over 1..3 lines incl. unchanged lines, and random sets over 1..4094 go through make_diff/make_pre/make_patch; the real commands are "
+                "executed on the old set by the judge; collapse/expand helpers are judged too.",
+        "note": "Per-family command lexers are trusted. Cisco A-layer not modelled (judged on real outputs only). `vlan pool` lines (keyed by their first id) are outside the property's list.",
+    },
     "C17": {
         "technique": "TLA+ completion semantics (Implicit.tla) over annet's implicit rule trees taken as data (RuleLang tokens); synthesised trees replayed into implicit.config/merge_dicts and the shipped rulebooks; TLC trace judge",
         "text": "For every hardware branch of the implicit rules (Huawei CE/NE/other, Arista, five Nexus variants incl. the tag-dependent one, Catalyst variants) trees synthesised from the rule rows (instances, the default "
